@@ -136,7 +136,7 @@ PRAGMA user_version = 10200;
 func createSQL(t *Table) string {
 	var cols []string
 	for _, c := range t.Columns {
-		s := `"` + c.Name + `" ` + c.Type
+		s := qi(c.Name) + ` ` + c.Type
 		if c.PK {
 			s += " PRIMARY KEY"
 			if c.AutoInc {
@@ -186,7 +186,7 @@ func WriteSource(path string, src *Source) error {
 		}
 		var names, marks []string
 		for _, c := range t.Columns {
-			names = append(names, `"`+c.Name+`"`)
+			names = append(names, qi(c.Name))
 			marks = append(marks, "?")
 		}
 		tx, err := db.Begin()
@@ -418,9 +418,9 @@ func ReadFile(path string) (*FileDump, error) {
 			}
 			// unary plus: an expression has no declared type, so go-sqlite3 hands the stored
 			// value on as it is (no DATE/DATETIME/BOOLEAN conversion)
-			sel = append(sel, `typeof("`+col.Name+`")`, `+"`+col.Name+`"`)
+			sel = append(sel, `typeof(`+qi(col.Name)+`)`, `+`+qi(col.Name))
 		}
-		q := `SELECT rowid, "` + t.GeomCols.Column + `"`
+		q := `SELECT rowid, ` + qi(t.GeomCols.Column)
 		if len(sel) > 0 {
 			q += ", " + strings.Join(sel, ", ")
 		}
@@ -508,4 +508,7 @@ func AddMarker(path string) error {
 	_, err = db.Exec(`INSERT INTO "` + MarkerTable + `" VALUES ('written before the run')`)
 	return err
 }
+
+// qi quotes an SQL identifier.
+func qi(name string) string { return `"` + strings.ReplaceAll(name, `"`, `""`) + `"` }
 
